@@ -49,3 +49,11 @@ UNITS += [
                 "the encode-side invariant centerW == blocksizes[1]/2 is a precondition (vorbis_analysis_init establishes it; this contract re-establishes it)"],
        note="block production: no block => no state change; the block carries the position before the advance, consecutive sequence numbers and the state's window flags; window history chains; the centre returns to bs1/2; the granule position advances by the movement but never counts padding after the end mark (it stops exactly at the end mark: the last packet's granule position is the number of submitted samples); the block whose centre reaches the end mark is flagged end-of-stream and is the last; granule positions never decrease"),
 ]
+UNITS += [
+  Unit("blk_shared_init", ["C02", "C13", "C18", "C20"], "lib/block.c", enforce="_vds_shared_init", harness="h_blk_shared_init.c", entry="h_blk_shared_init",
+       replace=["ov_ilog", "mdct_init", "drft_init", "_vp_psy_init", "vorbis_book_init_decode", "vorbis_book_init_encode", "vorbis_staticbook_destroy", "vorbis_book_clear", "vorbis_dsp_clear"],
+       unwindset=["h_blk_shared_init.0:3", "h_blk_shared_init.1:2"] + ["_vds_shared_init.%d:3" % k for k in range(8)], reach=4, timeout=900, shards=8, objbits=11,
+       assumed=["<= 2 books / floors / residues, <= 1 psy set-up, <= 2 channels in the harness-built set-up (all loops over them fully unwound with unwinding assertions)",
+                "table builders (mdct, fft, psy), codebook init/clear, vorbis_dsp_clear by contract; floor/residue look builders as stubs behind the dispatch tables"],
+       note="decode/encode state set-up for a vorbis_info in ANY state: every refusal leaves *v zeroed; a refused codebook set-up keeps no decode books and no static books (so a second init is refused again); success establishes the decode-state invariant (block geometry, window numbers, mode bits) with zero-filled accumulator rows and, on the decode side, the static books handed over"),
+]
